@@ -12,6 +12,7 @@ INVARIANT NoEmptyPara
 INVARIANT ParasSeparated
 INVARIANT NoDupStaysUnique
 INVARIANT NoBlobDuplication
+INVARIANT ReplaceLaws
 PROPERTY ErrAtomic
 PROPERTY CommentsStay
 PROPERTY SepsKept
